@@ -23,6 +23,12 @@ type Clause struct {
 	Line  int
 }
 
+type RecordFailSpec struct {
+	Props  []string
+	Benign []string // error predicates (IsNotFound, IsConflict, IsAlreadyExists) whose errors may be swallowed
+	Accum  string   // source name of the accumulator slice
+}
+
 type SnapSpec struct {
 	Name string
 	Expr ast.Expr
@@ -49,6 +55,7 @@ type FuncContract struct {
 	Tags     []Clause
 	Ats      []AtClause
 	NoExit   map[int][]string
+	RecordFail map[string]*RecordFailSpec // callee -> a non-benign failure of a call of it must be recorded in an accumulator slice before the loop goes on
 	FailStop map[string][]string // callee -> props: a non-nil error result of a call of it ends the function with a non-nil error at once
 	Invs     map[int][]Clause
 	Binds    map[int][]string
@@ -546,6 +553,24 @@ func parseContractFile(path, pkgPath string, preds map[string]*Pred) ([]*FuncCon
 				callee = callee[:i]
 			}
 			cur.Ats = append(cur.Ats, AtClause{Callee: callee, Site: siteSel, Binders: splitNames(m[2]), Props: props, Text: m[4], Expr: ex, Line: l.no})
+		case "recordfail":
+			// recordfail [props] Callee unless Pred, Pred : accumulator
+			props, body := parseProps(rest)
+			i := strings.LastIndex(body, ":")
+			if i < 0 {
+				return nil, fail(l, "recordfail needs ': accumulator'")
+			}
+			head, accum := strings.TrimSpace(body[:i]), strings.TrimSpace(body[i+1:])
+			rf := &RecordFailSpec{Props: props, Accum: accum}
+			callee := head
+			if j := strings.Index(head, " unless "); j >= 0 {
+				callee = strings.TrimSpace(head[:j])
+				rf.Benign = splitNames(head[j+len(" unless "):])
+			}
+			if cur.RecordFail == nil {
+				cur.RecordFail = map[string]*RecordFailSpec{}
+			}
+			cur.RecordFail[callee] = rf
 		case "failstop":
 			props, body := parseProps(rest)
 			if cur.FailStop == nil {
@@ -643,6 +668,9 @@ func parseContractFile(path, pkgPath string, preds map[string]*Pred) ([]*FuncCon
 		}
 		for _, ps := range c.FailStop {
 			add(ps)
+		}
+		for _, rf := range c.RecordFail {
+			add(rf.Props)
 		}
 		for _, cls := range c.Invs {
 			for _, cl := range cls {
